@@ -16,7 +16,9 @@ EXC = {999: RuntimeError, 998: IndexError, 997: KeyError, 996: AssertionError, 9
 def _maybe_fail(marker):
     e = EXC.get(int(marker)) if np.isfinite(marker) else None
     if e is not None:
-        raise e("probe failure")
+        # exceptions as user code raises them: with a message, bare (no arguments), with a non-string or several arguments
+        args = {999: ("probe failure",), 998: (), 997: (3,), 996: (), 995: ("probe failure",), 994: (), 993: ("probe", 5), 992: ("probe failure",)}[int(marker)]
+        raise e(*args)
 
 @attrs.define(slots=False)
 class ProbeLS(Debiaser):
